@@ -26,6 +26,7 @@ type c12Case struct {
 	Branch  *model.Branch `json:"branch,omitempty"`
 	Strict  bool          `json:"strict,omitempty"`
 	SingleP bool          `json:"singleP,omitempty"` // run in a worker process started with GOMAXPROCS=1
+	Target  string        `json:"target,omitempty"`  // mkdir / verify: spelling of the target directory option ("", slash, rel)
 	IOKind  int           `json:"ioKind,omitempty"`  // dynamic type of the reader/writer handed to the library (ops.Faults.IOKind)
 }
 
@@ -43,6 +44,7 @@ func genC12Opts(t *rapid.T, c *c12Case) {
 	c.Strict = rapid.IntRange(0, 3).Draw(t, "strict") == 0
 	c.SingleP = rapid.IntRange(0, 7).Draw(t, "singleP") == 0
 	c.IOKind = rapid.SampledFrom([]int{0, 0, 0, 1, 3, 4, 5}).Draw(t, "ioKind")
+	c.Target = rapid.SampledFrom([]string{"", "", "slash", "rel"}).Draw(t, "target")
 }
 
 var c12Ops = []string{"text", "noiter", "json", "yaml", "toml", "dryrun", "walk", "mkdir-dry", "mkdir-real", "verify"}
@@ -55,6 +57,9 @@ func c12Make(c c12Case, op string, massive bool, doc []byte) ops.Case {
 	cs.Opts.Massive = massive
 	cs.Opts.Exts, cs.Opts.HasExts, cs.Opts.Branch, cs.Opts.Strict = c.Exts, c.HasExts, c.Branch, c.Strict
 	cs.Faults.IOKind = c.IOKind
+	if op == "mkdir-real" || op == "mkdir-dry" || op == "verify" {
+		cs.Opts.TargetOpt = c.Target
+	}
 	switch op {
 	case "noiter":
 		cs.Opts.NoIter = true
@@ -349,7 +354,7 @@ func c12Record(col *collector, c c12Case, kinds []string) {
 	if c.SingleP {
 		cl = append(cl, "process-with-one-P")
 	}
-	col.eval(len(kinds) > 0 || len(c.Doc) >= 1024, hash64(string(c.Doc), c.Op, fmt.Sprint(c.Massive, c.Exts, c.HasExts, c.Branch, c.Strict, c.SingleP, c.IOKind)), cl...)
+	col.eval(len(kinds) > 0 || len(c.Doc) >= 1024, hash64(string(c.Doc), c.Op, fmt.Sprint(c.Massive, c.Exts, c.HasExts, c.Branch, c.Strict, c.SingleP, c.IOKind, c.Target)), cl...)
 	col.sample(func() any {
 		return map[string]any{"doc": truncate(string(c.Doc), 200), "op": c.Op, "massive": c.Massive}
 	})
